@@ -12,6 +12,7 @@ LEVEL_TEXT = ("Theorems (Lean 4, any linearly ordered field): on a live supply t
               "documented laws are evaluated exactly on every returned row (the failing-input search). End to end (Props/C01Conv): for whatever solvePhase returns, every single-supply row, every Source row and the PMux row deviates from its documented voltage law by at most atol + vtol*|law| and from its current law by at most atol + itol*|law| (`solve_row_voltage_law`, `solve_row_current_law`, `solve_source_row_*`, `solve_mux_row_laws`; the current law is evaluated at the once-more-swept supply voltage, which is within vtol of the row's Vin - stated, not hidden), and exactly in an exact steady state (`steady_row_exact`). Partial: negative Source "
               "with series resistance (finding F01) is excluded by hypothesis and reported as KNOWN-FINDING.")
 LEVEL_NOTE = "Law level, row level and the end-to-end tolerance statement are theorems about the model; that the model is the code is differential testing (certificate correspondence + oracle on generated systems)."
+LEVEL_NOTE = LEVEL_NOTE + (' Every solved-table check first demands one row per component and phase (`one_row_per_component`); finding F39 (a component named like a summary row had its cells overwritten; fixed e319b02) came from the table correspondence on unusual names.')
 MODULE = "SysLoss.Props.C01"
 MODULES = ["SysLoss.Props.C01", "SysLoss.Props.C01Conv"]
 THEOREMS = ["SysLoss.C01." + t for t in (
@@ -34,7 +35,7 @@ EXPLANATION = ("theorems: the sweep laws refine the documented laws on live supp
 
 
 def gen_fn(rng):
-    return gen.gen_system(rng, phases=0.15, p_rail=0.15, p_neg_src_rs=0.05, p_group=rng.choice([0.0, 0.0, 0.3]), p_rename=0.1)
+    return gen.gen_system(rng, phases=0.15, p_rail=0.15, p_neg_src_rs=0.05, p_group=rng.choice([0.0, 0.0, 0.3]), p_rename=0.1, p_oddnames=0.15)
 
 
 def solve_kw(rng):
@@ -123,5 +124,7 @@ def replay(ctx, data):
         ctx.notes.append("replay: %s %r" % err)
         return
     obs = sysdesc.observe(df)
+    if not solved.rows_ok(ctx, desc, obs):
+        return
     model = solved.cert(ctx.drv, desc, obs)
     per_case(ctx, desc, obs, model, sys_, df, kw)
